@@ -352,15 +352,220 @@ def _compress(log):
     return ' '.join('T%dx%d' % (t, n) for t, n in out)
 
 
+# ---------------------------------------------------------------------------------------------
+# policy monitor vs. requests: the monitor (a separate process in a real server) updates the policy
+# store the engine reads; every operation on that store is atomic on its own (a Manager dict proxy),
+# so every store operation - of the monitor and of the engine - is a schedule point
+# ---------------------------------------------------------------------------------------------
+class PointDict(dict):
+    sched = None
+
+    def _p(self):
+        if PointDict.sched is not None:
+            PointDict.sched.point('store')
+
+    def __getitem__(self, k):
+        self._p()
+        return dict.__getitem__(self, k)
+
+    def get(self, k, d=None):
+        self._p()
+        return dict.get(self, k, d)
+
+    def __contains__(self, k):
+        self._p()
+        return dict.__contains__(self, k)
+
+    def keys(self):
+        self._p()
+        return list(dict.keys(self))
+
+    def __setitem__(self, k, v):
+        self._p()
+        dict.__setitem__(self, k, v)
+
+    def pop(self, k, *d):
+        self._p()
+        return dict.pop(self, k, *d)
+
+    def __delitem__(self, k):
+        self._p()
+        dict.__delitem__(self, k)
+
+
+SHARED_JSON = {"shared": {"preset": {"SYMMETRIC_KEY": {
+    "GET": "ALLOW_ALL", "GET_ATTRIBUTES": "ALLOW_ALL", "LOCATE": "ALLOW_ALL", "DESTROY": "ALLOW_OWNER"}}}}
+# scenario -> (files present at the first scan, change made before the explored scan)
+MONITOR = {
+    'monitor_shadow': ({'b.json': SHARED_JSON}, ('write', 'a.json')),       # a later file takes over
+    'monitor_restore': ({'b.json': SHARED_JSON, 'c.json': SHARED_JSON}, ('remove', 'c.json')),
+    'monitor_edit': ({'a.json': SHARED_JSON}, ('write', 'a.json')),         # the owning file is rewritten
+    'monitor_swap': ({'b.json': SHARED_JSON, 'c.json': SHARED_JSON}, ('remove+write', 'c.json', 'a.json')),
+}
+MONITOR_REQUESTS = [('bob', R((1, 2), lambda: [W.p_get('4')])), ('bob', R((1, 4), lambda: [W.p_locate()]))]
+
+
+def _monitor_world(name):
+    """World whose engine reads a PointDict kept by a real PolicyDirectoryMonitor; object 4 is alice's,
+    under policy 'shared'; the change of the scenario is already on disk, not yet scanned."""
+    import json as _json
+    from kmip.services.server import monitor as monitor_mod
+    files, change = MONITOR[name]
+    w = _base().clone()
+    pdir = os.path.join(w.dir, 'policies')
+    os.makedirs(pdir)
+    store = PointDict(w.engine._operation_policies)
+    w.engine._operation_policies = store
+    mon = monitor_mod.PolicyDirectoryMonitor(pdir, store, live_monitoring=False)
+    stamp = [1000]
+
+    def write(fn):
+        with open(os.path.join(pdir, fn), 'w') as fh:
+            _json.dump(SHARED_JSON, fh)
+        stamp[0] += 10
+        os.utime(os.path.join(pdir, fn), (stamp[0], stamp[0]))
+    for fn in sorted(files):
+        write(fn)
+        mon.scan_policies()          # one file per scan: the later file shadows the earlier one
+    W.CLOCK.now = W.T0 + 400
+    r = w.do((1, 4), W.p_create(W.sym_attrs(masks=MASKS, policy='shared')), user='alice')
+    assert r.items[0].ok() and r.uid() == '4', r.brief()
+    for step in ([change] if change[0] != 'remove+write' else [('remove', change[1]), ('write', change[2])]):
+        if step[0] == 'write':
+            write(step[1])
+        else:
+            os.unlink(os.path.join(pdir, step[1]))
+    return w, mon, store
+
+
+def _monitor_outcome(w, store, resp):
+    pol = sorted((k, repr(sorted(v.items(), key=repr))) for k, v in dict.items(store))
+    return (tuple(resp), tuple(pol), w.raw_key())
+
+
+def monitor_serial(name):
+    outs = {}
+    for order in ('scan-first', 'requests-first', 'between'):
+        w, mon, store = _monitor_world(name)
+        try:
+            W.CLOCK.now = W.T0 + 500
+            W.ENTROPY.constant = True
+            sess = w.session_for('bob')
+            datas = [W.encode_request(W.build_request(v, b(), **h)) for _, (v, b, h) in MONITOR_REQUESTS]
+            resp = []
+            if order == 'scan-first':
+                mon.scan_policies()
+            for i, d in enumerate(datas):
+                if order == 'between' and i == 1:
+                    mon.scan_policies()
+                resp.append(W.Resp(_send(sess, d)).key())
+            if order == 'requests-first':
+                mon.scan_policies()
+            outs[_monitor_outcome(w, store, resp)] = order
+        finally:
+            w.close()
+    return outs
+
+
+def run_monitor_schedule(name, prefix):
+    w, mon, store = _monitor_world(name)
+    problems = []
+    try:
+        W.CLOCK.now = W.T0 + 500
+        W.ENTROPY.constant = True
+        sch = S.Scheduler(prefix, TRACE_FILES, False, skip_codes=_lock_wrapper_codes())
+        eng = w.engine
+        eng._lock = S.SchedLock(sch)
+        sqlalchemy.event.listen(eng._data_store, 'connect', lambda c, r: c.execute('PRAGMA busy_timeout=0'))
+        eng._data_store.dispose()
+        sess = w.session_for('bob')
+        sess._engine = S.EngineProxy(eng, sch)
+        datas = [W.encode_request(W.build_request(v, b(), **h)) for _, (v, b, h) in MONITOR_REQUESTS]
+        resp = []
+
+        def client():
+            for d in datas:
+                conn = sess._connection
+                conn.feed(d)
+                n = len(conn.sent)
+                try:
+                    sess._handle_message_loop()
+                except SystemExit:
+                    raise
+                except BaseException as e:   # noqa
+                    resp.append(('EXC', type(e).__name__, str(e)[:120]))
+                    continue
+                resp.append(W.Resp(conn.sent[-1]).key() if len(conn.sent) == n + 1 else ('NO-RESPONSE',))
+
+        def scanner():
+            mon.scan_policies()
+        PointDict.sched = sch
+        try:
+            sch.run([client, scanner])
+        except S.Deadlock as e:
+            problems.append(('deadlock', str(e)))
+        finally:
+            PointDict.sched = None
+        for t in sch.threads:
+            if t.exc is not None:
+                problems.append(('thread-exception', "%s: %s" % (type(t.exc).__name__, t.exc)))
+        return sch, _monitor_outcome(w, store, resp), problems
+    finally:
+        PointDict.sched = None
+        w.close()
+
+
+def explore_monitor(name, bound, part, max_exec=None):
+    serial = monitor_serial(name)
+    distinct = set()
+
+    def run_one(prefix):
+        sch, outcome, problems = run_monitor_schedule(name, prefix)
+        sch._outcome, sch._problems = outcome, problems
+        return sch
+
+    def check(sch, prefix):
+        part.count('executions')
+        part.count('monitor_executions')
+        part.count('schedule_points', len(sch.points))
+        outcome, problems = sch._outcome, sch._problems
+        distinct.add(hash(outcome))
+        bad = list(problems)
+        if outcome not in serial:
+            bad.append(('not-linearizable',
+                        "a request overlapping the monitor's scan is answered as under neither the old nor "
+                        "the new policy store: got %s; serial orders give %s" % (
+                            _brief((outcome[0],)), [_brief((o[0],)) for o in serial])))
+        if bad:
+            choices = list(sch.choices)
+            s2, o2, p2 = run_monitor_schedule(name, choices)
+            if o2 != outcome or s2.choices != choices:
+                part.error("nondeterministic replay of schedule %s in harness %s" % (choices[:40], name))
+                return True
+            for kind, what in bad:
+                part.violation("%s|%s" % (kind, name), "harness %s, schedule (thread per step) %s: %s" % (
+                    name, _compress(sch.step_log), what), {'harness': name, 'choices': choices, 'monitor': True})
+            return True
+        return False
+    stats = S.explore(run_one, bound, check, max_exec)
+    part.counters.setdefault('_h', []).append(
+        (name, stats['executions'], stats['completed_bound'], stats['capped'], len(serial), len(distinct)))
+    return stats
+
+
 def _worker(task):
     name, bound, line_level, max_exec = task[:4]
     wide = len(task) > 4 and task[4]
     part = Part()
     try:
-        explore_harness(name, bound, line_level, part, max_exec, wide)
+        if name in MONITOR:
+            explore_monitor(name, bound, part, max_exec)
+        else:
+            explore_harness(name, bound, line_level, part, max_exec, wide)
     except S.HarnessError as e:
         part.error("harness %s: %s" % (name, e))
-    part.sample({'harness': name, 'threads': [(u, len(r)) for u, r in HARNESSES[name]]})
+    part.sample({'harness': name, 'threads': [(u, len(r)) for u, r in HARNESSES[name]] if name in HARNESSES
+                 else ['bob: Get, Locate', 'policy monitor: one scan']})
     out = part.as_dict()
     out['h'] = part.counters.pop('_h', [])
     out['flagged'] = [(name, ['%s:%s' % k for k in _AUDIT.get(name, ((), ()))[0]],
@@ -372,6 +577,7 @@ def run(tier, seed):
     rep = Reporter('C10', 'model_checking', tier, seed)
     names = QUICK if tier == 'quick' else list(HARNESSES)
     tasks = [(n, 2, False, 4000) for n in names]
+    tasks += [(n, 2 if tier == 'quick' else 3, False, 4000) for n in MONITOR]
     if tier == 'thorough':
         # line-level points cost ~0.1-0.8 s per execution: capped, and not for the 4-thread harness
         tasks += [(n, 2, True, 2500) for n in names if len(HARNESSES[n]) <= 3]
@@ -418,6 +624,11 @@ def run(tier, seed):
 
 def replay(doc):
     name = doc['harness']
+    if doc.get('monitor'):
+        serial = monitor_serial(name)
+        sch, outcome, problems = run_monitor_schedule(name, doc['choices'])
+        bad = bool(problems) or outcome not in serial
+        return bad, "schedule %s -> %s %s" % (_compress(sch.step_log), _brief((outcome[0],)), problems or '')
     serial = serial_outcomes(name)
     sch, outcome, problems = run_schedule(name, doc['choices'], doc.get('line_level', False),
                                           doc.get('wide', False))
